@@ -2,8 +2,10 @@
 from vlib.coqrun import hexlit
 
 # ---------------------------------------------------------------- callee
+NWORDS = 20
+
 def callee_runtime():
-    """storage: slot0 = mode, slot1 = N (bytes), slot 2.. = data words (8).
+    """storage: slot0 = mode, slot1 = N (bytes), slot 2.. = data words (NWORDS).
     mode 0 return data[:N]; 1 revert data[:N]; 2 INVALID; 3 SSTORE(100,1) then return; 4 return callvalue;
     5 return (calldataload(0), calldatasize); 6 return GAS"""
     code = bytearray()
@@ -22,8 +24,8 @@ def callee_runtime():
         labels[name] = len(code)
         code.append(0x5B)
 
-    for i in range(8):
-        op(0x60, 2 + i, 0x54, 0x60, 32 * i, 0x52)
+    for i in range(NWORDS):
+        op(0x60, 2 + i, 0x54, 0x61, (32 * i) >> 8, (32 * i) & 255, 0x52)
     op(0x60, 0x00, 0x54)
     for m, name in [(1, "revert"), (2, "invalid"), (3, "sstore"), (4, "value"), (5, "cd"), (6, "gas")]:
         op(0x80, 0x60, m, 0x14)
@@ -73,12 +75,16 @@ GASKW = 100000
 
 
 def caller_source():
-    L = ["interface C:"]
+    from vlib import c12_dyn
+    L = [c12_dyn.STRUCTS, "interface C:"]
     for ty, (vt, *_r) in TYPES.items():
         for m, (mut, _) in MUTS.items():
             ret = f" -> {vt}" if vt else ""
             L.append(f"    def f_{ty}_{m}(x: uint256){ret}: {mut}")
+    L += c12_dyn.iface_lines()
     L += ["", "t: public(address)", "", "@external", "def set_t(a: address):", "    self.t = a", ""]
+    dl, dfns = c12_dyn.caller_functions()
+    L += dl
     fns = []   # (name, ty, mutkey, skip, dflt, value, gas)
 
     def emit(name, ty, m, skip, dflt, value=False, gas=False):
@@ -135,7 +141,7 @@ def caller_source():
                     ret, body = f" -> (bool, Bytes[{M}])", f"return raw_call(self.t, d{kw})"
                 L.extend(["@external", f"def {name}(d: Bytes[64]){ret}:", f"    {body}", ""])
                 raws.append((name, M, R, S))
-    return "\n".join(L), fns, raws
+    return "\n".join(L), fns, raws, dfns
 
 
 # ---------------------------------------------------------------- cases
@@ -195,8 +201,9 @@ def install(chain, callee, mode, data):
     ins = chain.evm.insert_account_storage
     ins(callee, 0, mode)
     ins(callee, 1, len(data))
+    assert len(data) <= 32 * NWORDS
     d = data + bytes(-len(data) % 32)
-    for i in range(8):
+    for i in range(NWORDS):
         ins(callee, 2 + i, int.from_bytes(d[32 * i:32 * i + 32], "big") if 32 * i < len(d) else 0)
 
 
